@@ -405,7 +405,7 @@ Definition cmd_body (name : bytes) (aliases : list bytes) (shorts : list char) (
                 | Some o1 =>
                   match run o1 with
                   | (SOk res, o2) =>
-                    match set_scope o2 (sc_start s5) (sc_end s5) with
+                    match set_scope o2 (sc_start s3) (sc_end s3) with
                     | Some o3 => (ROk res, o3)
                     | None => (RPanic P_set_scope, o2)
                     end
@@ -532,6 +532,31 @@ Definition hide_body (ev : evaluator) (s : state) : eres * state :=
 Definition con_reset (r : eres * state) : eres * state :=
   let '(x, s') := r in (x, set_current s' None).
 
+(* the closure built by construct!: evaluate every field (unless failfast stops at the first),
+   then report the first error in field order *)
+Fixpoint con_go (failfast : bool) (evs : list evaluator) (s : state) (first : bool)
+         (acc : list val) (err : option message) {struct evs} : eres * state :=
+  match evs with
+  | [] =>
+    match err with
+    | Some e => (RErr e, s)
+    | None => (ROk (VTuple (rev acc)), set_current s None)
+    end
+  | ev :: t =>
+    let '(r, s') := ev s in
+    match r with
+    | ROk v => con_go failfast t s' false (v :: acc) err
+    | RErr e =>
+      if failfast && first then (RErr e, s')
+      else con_go failfast t s' false acc (match err with Some _ => err | None => Some e end)
+    | RPanic w => (RPanic w, s')
+    | RFuel => (RFuel, s')
+    end
+  end.
+
+Definition con_body (failfast : bool) (evs : list evaluator) (s : state) : eres * state :=
+  con_reset (con_go failfast evs s true [] None).
+
 (* OptionParser::run_subparser, given the outcome of the inner parser *)
 Definition run_sub_body (inf : info) (m : meta) (s : state) (res : eres * state) : sres * state :=
   let no_args := Nat.eqb (remaining s) 0 in
@@ -586,11 +611,10 @@ Fixpoint eval (p : parser) (s : state) {struct p} : eres * state :=
     match fields with
     | PNil => (ROk (VTuple []), set_current s None)
     | PCons q PNil => eval q s
-    | _ => con_reset (eval_con false fields s true [] None)
+    | _ => con_body false (evals fields) s
     end
   | PAdj fields =>
-    eval_adjacent (fun st => con_reset (eval_con true fields st true [] None))
-                  (first_item (con_meta fields)) s
+    eval_adjacent (con_body true (evals fields)) (first_item (con_meta fields)) s
   | POr a b => or_body (eval a) (eval b) s
   | POptional q catch => optional_body (eval q) catch s
   | PMany q catch => many_body (eval q) catch s
@@ -613,26 +637,10 @@ Fixpoint eval (p : parser) (s : state) {struct p} : eres * state :=
   | PBoxed q => eval q s
   end
 
-(* the closure built by construct!: evaluate every field (unless failfast stops at the first),
-   then report the first error in field order *)
-with eval_con (failfast : bool) (ps : plist) (s : state) (first : bool) (acc : list val)
-              (err : option message) {struct ps} : eres * state :=
+with evals (ps : plist) {struct ps} : list (state -> eres * state) :=
   match ps with
-  | PNil =>
-    match err with
-    | Some e => (RErr e, s)
-    | None => (ROk (VTuple (rev acc)), set_current s None)
-    end
-  | PCons q t =>
-    let '(r, s') := eval q s in
-    match r with
-    | ROk v => eval_con failfast t s' false (v :: acc) err
-    | RErr e =>
-      if failfast && first then (RErr e, s')
-      else eval_con failfast t s' false acc (match err with Some _ => err | None => Some e end)
-    | RPanic w => (RPanic w, s')
-    | RFuel => (RFuel, s')
-    end
+  | PNil => []
+  | PCons q t => eval q :: evals t
   end
 
 (* OptionParser::run_subparser (without the autocomplete hook) *)
